@@ -152,6 +152,30 @@ theorem isRedundant_no_superiors (within : Lookup) (rules : List RuleM) (cluster
   obtain ⟨first, last⟩ := fl
   simp only [isRedundant, h, hfl, hs, bind, Except.bind, redundantOuter, pure, Except.pure]
 
+/-- without SUPERIORS the superiors step keeps every protocluster: `remove_redundant_protoclusters` is the
+    identity on a ruleset none of whose rules names a superior (whenever every core holds a gene) -/
+theorem removeRedundant_no_superiors (within : Lookup) (rules : List RuleM) (clusters : List PC)
+    (hr : ∀ pc ∈ clusters, ∃ rule, findRule rules pc.rule = .ok rule ∧ rule.superiors = [])
+    (hf : ∀ pc ∈ clusters, ∃ fl, firstLast within pc = .ok fl) :
+    removeRedundant within rules clusters = .ok clusters := by
+  have key : ∀ l : List PC, (∀ pc ∈ l, pc ∈ clusters) →
+      filterE (fun pc => do
+        let red ← isRedundant within rules clusters pc
+        pure (!red)) l = .ok l := by
+    intro l
+    induction l with
+    | nil => intro _; rfl
+    | cons pc rest ih =>
+      intro hsub
+      obtain ⟨rule, h1, h2⟩ := hr pc (hsub pc (by simp))
+      obtain ⟨fl, h3⟩ := hf pc (hsub pc (by simp))
+      have hred := isRedundant_no_superiors within rules clusters pc rule h1 h2 fl h3
+      have ih' := ih (fun x hx => hsub x (by simp [hx]))
+      simp only [bind, Except.bind, pure, Except.pure] at ih'
+      simp only [filterE, hred, bind, Except.bind, pure, Except.pure, Bool.not_false, if_true]
+      rw [ih']
+  exact key clusters (fun _ h => h)
+
 /-! ### `strip_inferior_domains` -/
 
 theorem mem_stripInferior (rules : List RuleM) (d : Doms) (e : Gene × String × List Prof) :
